@@ -106,7 +106,7 @@ def referenced_rects(spec):
 
 
 @st.composite
-def overrides(draw, spec, max_n=3, kinds=('cell', 'formula', 'name', 'rect'), values=VALS, min_n=0):
+def overrides(draw, spec, max_n=3, kinds=('cell', 'formula', 'name', 'rect'), values=VALS, min_n=0, allow_arrays=False):
     """min_n..max_n overrides on distinct, non-overlapping targets.  Array-formula cells are never targets;
     multi-cell targets (names, ranges) must consist of populated cells only."""
     arr = array_cells(spec)
@@ -166,6 +166,14 @@ def overrides(draw, spec, max_n=3, kinds=('cell', 'formula', 'name', 'rect'), va
     out = []
     if not avail:
         return out
+    if not allow_arrays:
+        # random multi-cell targets never touch an array-formula area (listed finding F42 covers what goes wrong there;
+        # the fixed shapes of C07's 'array-range-histories' part keep that area asserted)
+        for kk in ('name', 'rect'):
+            elig[kk] = [t for t in elig[kk] if not (keys_of(tuple(spec['names'][t]['rect']) if kk == 'name' else t) & arr)]
+        avail = [k for k in kinds if elig[k]]
+        if not avail:
+            return out
     nv = values.filter(lambda v: v is not None)
     for _ in range(draw(st.integers(min_n, max_n))):
         kind = draw(st.sampled_from(avail))
